@@ -684,6 +684,22 @@ INT_FAMILY = tuple(INT_RANGES)
 PRIMS = ('string', 'boolean', 'decimal', 'float', 'double', 'duration') + DT_TYPES + ('hexBinary', 'base64Binary', 'anyURI', 'QName', 'NOTATION')
 
 
+BINARY_AS_STRING = False           # diagnosis only: hexBinary / base64Binary values are equal only when their literals are
+
+
+class LexBytes(bytes):
+    def __new__(cls, b, lex):
+        o = bytes.__new__(cls, b)
+        o.lex = lex
+        return o
+
+    def __eq__(self, other):
+        return isinstance(other, LexBytes) and self.lex == other.lex
+
+    def __hash__(self):
+        return hash(self.lex)
+
+
 DURATION_IGNORE_FRACTION = False   # diagnosis only: drop fractional seconds of durations
 UNION_ENUM_ANY_MEMBER = False      # diagnosis only: a union enumeration matches when ANY member type finds the two literals equal
 FLOAT_AS_DOUBLE = False      # diagnosis only: evaluate xs:float literals with binary64 precision (see c09.Judge.alt_float)
@@ -710,9 +726,11 @@ def prim_value(prim, s):
     if prim in DT_RE:
         return parse_datetime(prim, s)
     if prim == 'hexBinary':
-        return parse_hex(s)
+        b = parse_hex(s)
+        return LexBytes(b, s) if (BINARY_AS_STRING and b is not None) else b
     if prim == 'base64Binary':
-        return parse_b64(s)
+        b = parse_b64(s)
+        return LexBytes(b, s) if (BINARY_AS_STRING and b is not None) else b
     if prim == 'anyURI':
         j = judge_anyuri(s)
         if j is None:
@@ -1183,6 +1201,8 @@ def classify(tname, prim, s):
                 f.append('no-frac-part')
             elif fp.endswith('0'):
                 f.append('trail0')
+            if fp.startswith('0') and not ip.strip('0') and fp.strip('0'):
+                f.append('frac-lead0')
         if re.search('[eE]', body):
             f.append('exp')
             ex = re.split('[eE]', body, 1)[1]
@@ -1795,6 +1815,15 @@ def neighbours(r, t, s):
     return out
 
 
+def _has_enum(t):
+    for a in t.chain():
+        if any(fn == 'enumeration' for fn, _ in a.facets):
+            return True
+    if t.item is not None and _has_enum(t.item):
+        return True
+    return any(_has_enum(m) for m in t.members)
+
+
 def gen_restriction(r, base, ev, name, pool):
     """one derivation step on base (Type).  pool = [(literal, verdict)] of normalised literals judged against base.
     Returns (Type, extra_literals) or None.  Only consistent facet sets are produced (the validity of the derivation
@@ -1928,6 +1957,8 @@ def gen_restriction(r, base, ev, name, pool):
                 facets.append(('minLength', str(max(0, n - 1))))
                 facets.append(('maxLength', str(n + r.choice([0, 1]))))
         elif k == 'enumeration':
+            if involves(base, ('hexBinary', 'base64Binary')) and _has_enum(base):
+                continue       # a second enumeration over binary values: validity of the derivation would hinge on KF-C09-10
             ne = r.choice([1, 2, 3, 4])
             for _ in range(ne):
                 a = r.choice(good)
